@@ -121,6 +121,17 @@ def cases(tier, seed):
                         ops.append("rt.bwrite %d %s" % (a, words(rnd, n, rnd.choice(["zero", "small", "rnd"])) or "-"))
             for i in range(0, len(ops) - 2, 300):
                 cs.append(Case("top-%d-%d-%d" % (be, ai, i), ops[:2] + ops[2 + i:2 + i + 300], ("top-of-address-space",)))
+    # state left behind by other operations must not change what a block write does: sanitise runs that are cut short
+    # (a register of a second area cannot be written back) in a table with an always-fail register, refused typed sets
+    for be in (0, 1):
+        for second in ("26:3:rw:CR-", "26:3:rw:M"):
+            ents = "u16:16:1111:t|u32:18:00000006:f|u16:21:0006:c0|u16:26:0200:r0100-0300"
+            ops = ["rt.table %d 16:8:rw:M|%s %s" % (be, second, ents), "rt.init"]
+            for _ in range(40 if tier == "quick" else 200):
+                ops += rnd.choice([["rt.poke 1 0 ffff", "rt.sanitise"], ["rt.sanitise"], ["rt.set 1 u32 00000007"], ["rt.bset 3 u16 8000"], []])
+                a = rnd.randint(15, 23)
+                ops.append("rt.bwrite %d %s" % (a, words(rnd, rnd.randint(1, 5), rnd.choice(["zero", "small", "rnd"]))))
+            cs.append(Case("interf-%d-%s" % (be, second[-3:]), ops, ("interference",)))
     # uninitialised
     cs.append(Case("uninit", ["rt.table 0 16:8:rw:M u16:16:0001:t", "rt.bwrite 16 0001", "rt.bwrite 16 -"], ("uninit",)))
     return cs
